@@ -585,6 +585,17 @@ func c12Units(tier string) []Unit {
 		add(name+"/group", h.Config{}, nil, pre, alpha{scopes: sc, ctors: []*uFunc{fG1, pG},
 			decos: []*uFunc{dG}, invokes: []*uFunc{iG, iGs, iC}}, d, b)
 	}
+	// siblings deep in the tree (depth 3 and depth 5): each sees its own
+	// decorators and those of its ancestors, never its sibling's
+	for _, depth := range []int{3, 5} {
+		var pre []Op
+		for i := 0; i < depth-1; i++ {
+			pre = append(pre, scopeOp(i))
+		}
+		pre = append(pre, scopeOp(depth-1), scopeOp(depth-1), provide(0, pA), provide(0, fG1))
+		add(fmt.Sprintf("deep-siblings/depth%d", depth), h.Config{}, nil, pre, alpha{scopes: []int{depth - 1, depth, depth + 1}, ctors: []*uFunc{pB},
+			decos: []*uFunc{dA, dG}, invokes: []*uFunc{iA, iG}}, 4, explore.Budget{Provides: 1, Decorates: 3, Invokes: 2, Rejected: 1})
+	}
 	add("group-decorator-reentry-from-below", h.Config{}, nil, []Op{scopeOp(0), scopeOp(1), provide(0, fG1), provide(0, pB0)}, alpha{scopes: []int{1, 2}, ctors: []*uFunc{exported(pG), pG},
 		decos: []*uFunc{dGwB, dBwC, dG}, invokes: []*uFunc{iG, iB, iC}}, 6, explore.Budget{Provides: 1, Decorates: 2, Invokes: 3, Rejected: 0})
 	// the group taken and returned through different slice types over the same
